@@ -175,6 +175,17 @@ def case(world):
     xs, ys = tr.transform_sol(ex.x0.copy(), ex.y0.copy())
     if not (_eq(xs, xi0) and _eq(ys, yi0)):
         viol.append(V(ID, "start", "transformed start differs from (scaled x0, clip(c_s(x0), l_s, u_s), scaled y0)", sub, {}))
+    # a second solve on the same solver object from the same x0 with other multipliers: what the core starts from
+    # is the transformation of *that* start
+    if um.m and ex.trials and (world.get("case") or {}).get("restart_y", True):
+        y2 = ex.y0 + 1.0
+        ex2 = execute(world, problem=ex.problem, solver=ex.solver, y0=y2)
+        bump("restarts.other_multipliers")
+        if ex2.trials:
+            xi2, yi2 = rt.to_internal(ex.x0, y2)
+            t0 = ex2.trials[0].inp
+            if t0.x.shape == xi2.shape and not (_eq(t0.x, xi2) and _eq(t0.y, yi2)):
+                viol.append(V(ID, "start", "second solve on the same solver: the first step does not start from the transformation of the new (x0, y0)", sub, {}))
     # round trip
     dz = np.zeros(rt.N)
     xr, yr, dr = tr.restore_sol(xs, ys, dz)
